@@ -230,3 +230,137 @@ Proof.
   intros H. apply exec_tail_some in H. destruct H as (H1 & H2 & H3 & H4 & ->).
   rewrite sp_final. lia.
 Qed.
+
+(* the reported return address is the word just below the new stack pointer *)
+Theorem exec_x_some_mem ru first rg m ra rg' :
+  exec ra_addr_checked ru first rg m = (Ok (Some ra), rg') ->
+  8 <= sp rg' /\ m (sp rg' - 8) = Some ra.
+Proof.
+  assert (T : forall osp rg0 ns nb, exec_tail ra_addr_checked osp rg0 m ns nb = (Ok (Some ra), rg') ->
+              8 <= sp rg' /\ m (sp rg' - 8) = Some ra).
+  { intros osp rg0 ns nb H. apply exec_tail_some in H. destruct H as (H1 & H2 & H3 & H4 & ->).
+    rewrite sp_final. split; assumption. }
+  destruct ru; cbn [exec].
+  - discriminate.
+  - destruct (add64c (sp rg) 8); [apply T | discriminate].
+  - destruct first.
+    + destruct (add64c (sp rg) 8); [apply T | discriminate].
+    + destruct (bp rg =? 0); [discriminate|].
+      destruct (add64c (bp rg) 16); [|discriminate].
+      destruct (n <=? sp rg); [discriminate|].
+      destruct (m (bp rg)); [apply T | discriminate].
+  - destruct (add64c (sp rg) (k * 8)); [apply T | discriminate].
+  - destruct (add64c (sp rg) (k * 8)); [|discriminate].
+    destruct (adds64c (sp rg) (y * 8)); [|discriminate].
+    destruct (m n0); [apply T|].
+    destruct (first && (n0 <? sp rg)); [apply T | discriminate].
+  - destruct (bp rg =? 0); [discriminate|].
+    destruct (add64c (bp rg) 16); [|discriminate].
+    destruct (n <=? sp rg); [discriminate|].
+    destruct (m (bp rg)); [apply T | discriminate].
+  - destruct (add64c (sp rg) (k * 8)); [|discriminate].
+    destruct (decode cnt enc); try discriminate.
+    destruct (pop_loop a n rg m) as [r rg2].
+    destruct r; try discriminate.
+    destruct (add64c a0 8); [apply T | discriminate].
+Qed.
+
+(* the uncovered-by-FDE rule: leaf in the first frame, frame pointer in caller frames (C04) *)
+Lemma uncovered_first_is_leaf rg m :
+  exec ra_addr_checked JustReturnIfFirstFrameOtherwiseFp true rg m = exec ra_addr_checked JustReturn true rg m.
+Proof. reflexivity. Qed.
+
+Lemma uncovered_caller_is_fp rg m :
+  exec ra_addr_checked JustReturnIfFirstFrameOtherwiseFp false rg m = exec ra_addr_checked UseFramePointer false rg m.
+Proof. reflexivity. Qed.
+
+(* what the leaf rule and the frame pointer rule compute *)
+Lemma leaf_rule_semantics first rg m ra :
+  m (sp rg) = Some ra -> ra <> 0 -> sp rg + 8 < W64 ->
+  exec ra_addr_checked JustReturn first rg m =
+    (Ok (Some ra), set_bp (set_sp (set_ip rg ra) (sp rg + 8)) (bp rg)).
+Proof.
+  intros Hm Hnz Hlt. cbn [exec]. unfold add64c. destruct (sp rg + 8 <? W64) eqn:E; [|lia].
+  unfold exec_tail, ra_addr_checked, ok_or, sub64c.
+  destruct (8 <=? sp rg + 8) eqn:E8; [|lia].
+  replace (sp rg + 8 - 8) with (sp rg) by lia. rewrite Hm.
+  destruct (ra =? 0) eqn:E0; [lia|].
+  destruct ((sp rg + 8 =? sp rg) && (ra =? ip rg)) eqn:Ed; [lia | reflexivity].
+Qed.
+
+Lemma fp_rule_semantics first rg m ra nb :
+  bp rg <> 0 -> bp rg + 16 < W64 -> sp rg < bp rg + 16 ->
+  m (bp rg) = Some nb -> m (bp rg + 8) = Some ra -> ra <> 0 ->
+  exec ra_addr_checked UseFramePointer first rg m =
+    (Ok (Some ra), set_bp (set_sp (set_ip rg ra) (bp rg + 16)) nb).
+Proof.
+  intros Hb Hlt Hsp Hm Hra Hnz. cbn [exec].
+  destruct (bp rg =? 0) eqn:E0; [lia|]. unfold add64c.
+  destruct (bp rg + 16 <? W64) eqn:E; [|lia].
+  destruct (bp rg + 16 <=? sp rg) eqn:El; [lia|]. rewrite Hm.
+  unfold exec_tail, ra_addr_checked, ok_or, sub64c.
+  destruct (8 <=? bp rg + 16) eqn:E8; [|lia].
+  replace (bp rg + 16 - 8) with (bp rg + 8) by lia. rewrite Hra.
+  destruct (ra =? 0) eqn:Er; [lia|].
+  destruct ((bp rg + 16 =? sp rg) && (ra =? ip rg)) eqn:Ed; [lia | reflexivity].
+Qed.
+
+Lemma fp_rule_null_end first rg m :
+  bp rg = 0 -> exec ra_addr_checked UseFramePointer first rg m = (Ok None, rg).
+Proof. intros H. cbn [exec]. rewrite H. reflexivity. Qed.
+
+(* exactly when rule execution completes with Ok(None): the root markers (C11) *)
+Lemma exec_tail_none osp rg m ns nb rg' :
+  exec_tail ra_addr_checked osp rg m ns nb = (Ok None, rg') -> 8 <= ns /\ m (ns - 8) = Some 0.
+Proof.
+  unfold exec_tail, ra_addr_checked, ok_or.
+  destruct (sub64c ns 8) eqn:Es; cbn; [|discriminate].
+  apply sub64c_some in Es. destruct Es as [Hle ->].
+  destruct (m (ns - 8)) eqn:Em; [|discriminate].
+  destruct (n =? 0) eqn:E0.
+  - intros _. split; [exact Hle|]. assert (n = 0) by lia. subst. reflexivity.
+  - destruct ((ns =? osp) && (n =? ip rg)); discriminate.
+Qed.
+
+Theorem exec_x_none ru first rg m rg' :
+  exec ra_addr_checked ru first rg m = (Ok None, rg') ->
+  ru = EndOfStack \/
+  ((ru = UseFramePointer \/ (ru = JustReturnIfFirstFrameOtherwiseFp /\ first = false)) /\ bp rg = 0) \/
+  (exists ns, 8 <= ns /\ m (ns - 8) = Some 0).
+Proof.
+  assert (T : forall osp rg0 ns nb, exec_tail ra_addr_checked osp rg0 m ns nb = (Ok None, rg') ->
+              exists ns, 8 <= ns /\ m (ns - 8) = Some 0).
+  { intros osp rg0 ns nb H. exists ns. eapply exec_tail_none. exact H. }
+  destruct ru; cbn [exec].
+  - intros _. left. reflexivity.
+  - destruct (add64c (sp rg) 8); [intros H; right; right; eapply T; exact H | discriminate].
+  - destruct first.
+    + destruct (add64c (sp rg) 8); [intros H; right; right; eapply T; exact H | discriminate].
+    + destruct (bp rg =? 0) eqn:E0.
+      * intros _. right. left. split; [right; split; reflexivity | lia].
+      * destruct (add64c (bp rg) 16); [|discriminate].
+        destruct (n <=? sp rg); [discriminate|].
+        destruct (m (bp rg)); [intros H; right; right; eapply T; exact H | discriminate].
+  - destruct (add64c (sp rg) (k * 8)); [intros H; right; right; eapply T; exact H | discriminate].
+  - destruct (add64c (sp rg) (k * 8)); [|discriminate].
+    destruct (adds64c (sp rg) (y * 8)); [|discriminate].
+    destruct (m n0); [intros H; right; right; eapply T; exact H|].
+    destruct (first && (n0 <? sp rg)); [intros H; right; right; eapply T; exact H | discriminate].
+  - destruct (bp rg =? 0) eqn:E0.
+    + intros _. right. left. split; [left; reflexivity | lia].
+    + destruct (add64c (bp rg) 16); [|discriminate].
+      destruct (n <=? sp rg); [discriminate|].
+      destruct (m (bp rg)); [intros H; right; right; eapply T; exact H | discriminate].
+  - destruct (add64c (sp rg) (k * 8)); [|discriminate].
+    destruct (decode cnt enc); try discriminate.
+    destruct (pop_loop a n rg m) as [r rg2].
+    destruct r; try discriminate.
+    destruct (add64c a0 8); [intros H; right; right; eapply T; exact H | discriminate].
+Qed.
+
+Lemma sp_generic rg ra nb cfa : sp (set_sp (set_bp (set_ip rg ra) nb) cfa) = cfa.
+Proof. reflexivity. Qed.
+Lemma ip_generic rg ra nb cfa : ip (set_sp (set_bp (set_ip rg ra) nb) cfa) = ra.
+Proof. reflexivity. Qed.
+Lemma bp_generic rg ra nb cfa : bp (set_sp (set_bp (set_ip rg ra) nb) cfa) = nb.
+Proof. reflexivity. Qed.
